@@ -1052,13 +1052,15 @@ theorem tailFlags_spec (e : Env) (d : D) (w : World) :
   · exact ⟨⟨World.Le.refl _, id⟩, rfl, rfl⟩
   · exact ⟨SLe.refl _ _, rfl, rfl⟩
 
-theorem tailDecide_ret (fixed full : Bool) (d : D) (w : World) (r : PollRes) (d' : D)
-    (w' : World) (h : tailDecide fixed full d w = .ret r d' w') :
+theorem tailDecide_ret (fixed full qfull : Bool) (d : D) (w : World) (r : PollRes) (d' : D)
+    (w' : World) (h : tailDecide fixed full qfull d w = .ret r d' w') :
     SLe d w d' w' ∧ d'.wlen = d.wlen ∧ w'.dirty = w.dirty ∧ d'.rb = d.rb ∧
     (r = .pending → w'.woken = false →
       d'.flags.linger = false ∧ d'.flags.shutdown = false ∧
       (fixed = true →
-        ¬(full = true ∧ d'.rb < Consts.h1MaxBufferSize ∧ d'.flags.readDisc = false))) := by
+        ¬(full = true ∧ d'.rb < Consts.h1MaxBufferSize ∧ d'.flags.readDisc = false) ∧
+        ¬(qfull = true ∧ d'.messages.length < Consts.h1MaxPipelined ∧ d'.rb > 0 ∧
+          d'.flags.readDisc = false))) := by
   unfold tailDecide at h
   split at h
   · simp at h; obtain ⟨rfl, rfl, rfl⟩ := h
@@ -1076,12 +1078,16 @@ theorem tailDecide_ret (fixed full : Bool) (d : D) (w : World) (r : PollRes) (d'
           simp only [Bool.or_eq_true, not_or, Bool.not_eq_true] at hcond
           obtain ⟨⟨hA, hl⟩, hs⟩ := hcond
           refine ⟨hl, hs, ?_⟩
-          rintro hfx ⟨hf, hlt, hrd⟩
+          intro hfx
           unfold fixWake at hA
-          simp [hfx, hf, hlt, hrd] at hA
+          constructor
+          · rintro ⟨hf, hlt, hrd⟩
+            simp [hfx, hf, hlt, hrd] at hA
+          · rintro ⟨hq, hm, hrb, hrd⟩
+            simp [hfx, hq, hm, hrb, hrd] at hA
 
-theorem tailDecide_again (fixed full : Bool) (d : D) (w : World) (d' : D)
-    (w' : World) (h : tailDecide fixed full d w = .again d' w') :
+theorem tailDecide_again (fixed full qfull : Bool) (d : D) (w : World) (d' : D)
+    (w' : World) (h : tailDecide fixed full qfull d w = .again d' w') :
     SLe d w d' w' ∧ d'.wlen = d.wlen ∧ w'.dirty = w.dirty := by
   unfold tailDecide at h
   split at h
@@ -1094,29 +1100,31 @@ theorem tailDecide_again (fixed full : Bool) (d : D) (w : World) (d' : D)
         exact ⟨SLe.refl _ _, rfl, rfl⟩
       · split at h <;> simp at h
 
-theorem normalTail_ret (e : Env) (full : Bool) (d : D) (w : World) (r : PollRes) (d' : D)
-    (w' : World) (h : normalTail e full d w = .ret r d' w') :
+theorem normalTail_ret (e : Env) (full qfull : Bool) (d : D) (w : World) (r : PollRes) (d' : D)
+    (w' : World) (h : normalTail e full qfull d w = .ret r d' w') :
     SLe d w d' w' ∧ d'.wlen = d.wlen ∧ w'.dirty = w.dirty ∧ d'.rb = d.rb ∧
     (r = .pending → w'.woken = false →
       d'.flags.linger = false ∧ d'.flags.shutdown = false ∧
       (e.cfg.fixed = true →
-        ¬(full = true ∧ d'.rb < Consts.h1MaxBufferSize ∧ d'.flags.readDisc = false))) := by
+        ¬(full = true ∧ d'.rb < Consts.h1MaxBufferSize ∧ d'.flags.readDisc = false) ∧
+        ¬(qfull = true ∧ d'.messages.length < Consts.h1MaxPipelined ∧ d'.rb > 0 ∧
+          d'.flags.readDisc = false))) := by
   unfold normalTail at h
   split at h
   · simp at h; obtain ⟨rfl, rfl, rfl⟩ := h
     exact ⟨SLe.refl _ _, rfl, rfl, rfl, by intro h; simp at h⟩
   · obtain ⟨s1, hw1, hrb1⟩ := tailFlags_spec e d w
-    obtain ⟨s2, hw2, hd2, hrb2, hp⟩ := tailDecide_ret _ _ _ _ _ _ _ h
+    obtain ⟨s2, hw2, hd2, hrb2, hp⟩ := tailDecide_ret _ _ _ _ _ _ _ _ h
     exact ⟨s1.trans s2, hw2.trans hw1, hd2, hrb2.trans hrb1, hp⟩
 
-theorem normalTail_again (e : Env) (full : Bool) (d : D) (w : World) (d' : D)
-    (w' : World) (h : normalTail e full d w = .again d' w') :
+theorem normalTail_again (e : Env) (full qfull : Bool) (d : D) (w : World) (d' : D)
+    (w' : World) (h : normalTail e full qfull d w = .again d' w') :
     SLe d w d' w' ∧ d'.wlen = d.wlen ∧ w'.dirty = w.dirty := by
   unfold normalTail at h
   split at h
   · simp at h
   · obtain ⟨s1, hw1, _⟩ := tailFlags_spec e d w
-    obtain ⟨s2, hw2, hd2⟩ := tailDecide_again _ _ _ _ _ _ h
+    obtain ⟨s2, hw2, hd2⟩ := tailDecide_again _ _ _ _ _ _ _ h
     exact ⟨s1.trans s2, hw2.trans hw1, hd2⟩
 
 
@@ -1189,10 +1197,10 @@ theorem poll_spec (e : Env) (F : Nat) : ∀ (depth : Nat) (d : D) (w : World) (d
               split at h
               · next r d4 w4 hn =>
                 simp at h; obtain ⟨rfl, rfl, rfl⟩ := h
-                obtain ⟨s4, hw4, hd4, hrb4, hp4⟩ := normalTail_ret _ _ _ _ _ _ _ hn
+                obtain ⟨s4, hw4, hd4, hrb4, hp4⟩ := normalTail_ret _ _ _ _ _ _ _ _ hn
                 refine ⟨hf3.mono hw4 hd4 s4.world, fun hfx _ _ => ?_⟩
                 obtain ⟨_, _, hA⟩ := hp4 rfl hw
-                have hA := hA hfx
+                have hA := (hA hfx).1
                 have s24 := s2.trans (s3.trans s4)
                 by_cases hfull : d1.rb ≥ Consts.h1MaxBufferSize
                 · -- the socket was skipped at the cap: either still at the cap or disconnected
